@@ -295,6 +295,27 @@ fn check_valid(c: &mut Ctx, r: &mut Rng, t: &T, stream: &str) {
             if !num_ok {
                 c.oracle_fail("numbering", "get_pages is not the enumeration numbered 1..n, or the exhausted iterator yields again / differs from collect()", json!({"request": req}));
             }
+            // FILE leg (every fourth tree of moderate size): the same page tree written by the independent reference writer with every
+            // lexical freedom of ISO 32000-1 7.2 (NUL / FF / CR / comments as white space directly after names, #-escapes in names,
+            // object streams, either cross-reference kind), loaded by lopdf and enumerated — a page tree is what a FILE says it is
+            if c.cur % 4 == 0 && doc.objects.len() <= 400 && doc.objects.values().all(|o| !matches!(o, Object::Stream(_))) {
+                use crate::refwriter::{write_file, AObj, AObjects, Counters, Revision};
+                let objs: AObjects = doc.objects.iter().map(|(id, o)| (*id, AObj { obj: o.clone(), stream: None })).collect();
+                let mut style = super::c02::gen_style(r); style.lexical_freedom = true; style.junk_before_header = false;
+                let mut counters = Counters::new();
+                let w = write_file(r, &mut counters, &style, "1.5", &[Revision { objects: objs, trailer_extra: doc.trailer.clone() }]);
+                c.count("valid.file_leg");
+                if counters.get("ws.nul_ff").copied().unwrap_or(0) > 0 { c.count("valid.file_leg.nul_ff_whitespace"); }
+                match crate::ctx::guard(|| Document::load_mem(&w.bytes)) {
+                    Ok(Ok(d)) => match run_real(&d) {
+                        Ok((it2, _)) => if it2 != leaves { c.oracle_fail("dfs-order-file", "the page tree written to a file (reference writer, free lexical choices) and loaded enumerates differently from its depth-first leaves",
+                            json!({"file": hex(&w.bytes), "expected": reply(&leaves), "actual": reply(&it2)})); },
+                        Err((site, msg)) => c.oracle_fail(&format!("no-result-file:{}", site), &format!("page enumeration of the loaded file did not return: {}", msg.chars().take(120).collect::<String>()), json!({"file": hex(&w.bytes)})),
+                    },
+                    Ok(Err(e)) => c.oracle_fail("file-load", &format!("the reference writer's file does not load: {:?}", e), json!({"file": hex(&w.bytes)})),
+                    Err((site, msg)) => c.oracle_fail(&format!("panic@{}", site), &format!("loading the reference writer's file: {}", msg.chars().take(120).collect::<String>()), json!({"file": hex(&w.bytes)})),
+                }
+            }
             c.sample(json!({"stream": stream, "height": height(t), "leaves": leaves.len(), "request": if req.len() < 400 { req } else { format!("{}…", &req[..400]) }}));
         }
         Err((site, msg)) => c.oracle_fail(&format!("{}{}", if msg.starts_with("panic") { "panic@" } else { "no-result:" }, site), &format!("page enumeration did not return: {}", msg.chars().take(120).collect::<String>()), json!({"request": req})),
